@@ -3,9 +3,11 @@ package checks
 import (
 	"fmt"
 	"go/ast"
+	"go/token"
 	"go/types"
 	"sort"
 	"strings"
+	"unicode"
 
 	"golang.org/x/tools/go/packages"
 
@@ -102,7 +104,7 @@ func stdinSizeRule(r *core.Result, prog *core.Program, pk *packages.Package) int
 
 func checkC20(r *core.Result) {
 	r.Explanation = "Static clauses of the diagnostic tools: protodump's dump loop has an arm for every declared WireType constant and an erroring default (T1); each arm reads its value with a csproto.Decoder method of that wire type (T2, table); every decoder error is returned (T3); recursion happens only under shouldExpand(p) on the same path p = append(parent, tag) that is passed down, with tag taken from DecodeTag (T5); the result of os.Stdin.Stat() is not used through Size() to decide whether input was piped (T6); only csproto.Decoder methods whose bounds obligations are discharged by C03 are called (list in the evidence). " +
-		"ParseAnnotatedHex: the error of hex.DecodeString is returned and the output is appended only from its result, in line order (H1, H2)."
+		"ParseAnnotatedHex: the error of hex.DecodeString is returned and the output is appended only from its result, in line order (H1, H2); a character-class analysis of the transformations applied to each line shows that every unicode white-space character is removed before hex decoding (H3)."
 	r.RuleText = "one obligation per arm / decoder call / structural rule"
 	r.Assumptions = []string{"not decided: string-level behaviour of ParseAnnotatedHex (comment and whitespace placement), the exact text protodump prints, tag-path parsing"}
 	r.Trusted = []string{"go/types", "reader table (checks/c20.go)", "C03 for the Decoder methods"}
@@ -325,5 +327,286 @@ func main() {
 		}
 		return true
 	})
+	hexWhitespaceRule(r, prog, pt)
 	r.Ob("H2", "ParseAnnotatedHex output is appended only from hex.DecodeString results", prog.Pos(hf.Pos()), okApp && nApp >= 1, "the returned bytes must be exactly the concatenation of the decoded lines")
+}
+
+// ---------------------------------------------------------------------------
+// H3: character-class rule for ParseAnnotatedHex — every white-space character outside comments is
+// removed before the text reaches hex.DecodeString ("for every placement of whitespace").
+
+type runeClass struct {
+	all bool // every unicode.IsSpace rune
+	set map[rune]bool
+}
+
+func (c *runeClass) union(o runeClass) {
+	if o.all {
+		c.all = true
+	}
+	for r := range o.set {
+		if c.set == nil {
+			c.set = map[rune]bool{}
+		}
+		c.set[r] = true
+	}
+}
+
+// removedByMapFunc: runes for which the strings.Map callback returns a negative value.
+func removedByMapFunc(info *types.Info, lit *ast.FuncLit) (runeClass, bool) {
+	var out runeClass
+	if len(lit.Type.Params.List) != 1 || len(lit.Type.Params.List[0].Names) != 1 {
+		return out, false
+	}
+	param := info.Defs[lit.Type.Params.List[0].Names[0]]
+	var condClass func(e ast.Expr) (runeClass, bool)
+	condClass = func(e ast.Expr) (runeClass, bool) {
+		switch x := e.(type) {
+		case *ast.ParenExpr:
+			return condClass(x.X)
+		case *ast.CallExpr:
+			if fn := staticCallee(info, x); fn != nil && fn.Pkg() != nil && fn.Pkg().Path() == "unicode" && fn.Name() == "IsSpace" && len(x.Args) == 1 {
+				if id, ok := x.Args[0].(*ast.Ident); ok && info.Uses[id] == param {
+					return runeClass{all: true}, true
+				}
+			}
+		case *ast.BinaryExpr:
+			if x.Op == token.LOR {
+				l, ok1 := condClass(x.X)
+				r, ok2 := condClass(x.Y)
+				if ok1 && ok2 {
+					l.union(r)
+					return l, true
+				}
+			}
+			if x.Op == token.EQL {
+				if id, ok := x.X.(*ast.Ident); ok && info.Uses[id] == param {
+					if tv := info.Types[x.Y]; tv.Value != nil {
+						var v int64
+						if _, err := fmt.Sscan(tv.Value.ExactString(), &v); err == nil {
+							return runeClass{set: map[rune]bool{rune(v): true}}, true
+						}
+					}
+				}
+			}
+		}
+		return runeClass{}, false
+	}
+	for _, s := range lit.Body.List {
+		switch x := s.(type) {
+		case *ast.IfStmt:
+			if len(x.Body.List) == 1 {
+				if ret, ok := x.Body.List[0].(*ast.ReturnStmt); ok && len(ret.Results) == 1 {
+					if tv := info.Types[ret.Results[0]]; tv.Value != nil && strings.HasPrefix(tv.Value.ExactString(), "-") {
+						c, ok := condClass(x.Cond)
+						if !ok {
+							return out, false
+						}
+						out.union(c)
+						continue
+					}
+				}
+			}
+			return out, false
+		case *ast.ReturnStmt:
+			// return c: keeps the rest
+		default:
+			return out, false
+		}
+	}
+	return out, true
+}
+
+// replacerRemoved: single-rune patterns replaced by "" in strings.NewReplacer(args...).
+func replacerRemoved(info *types.Info, call *ast.CallExpr) (runeClass, bool) {
+	var out runeClass
+	if len(call.Args)%2 != 0 {
+		return out, false
+	}
+	for i := 0; i+1 < len(call.Args); i += 2 {
+		o, n := info.Types[call.Args[i]], info.Types[call.Args[i+1]]
+		if o.Value == nil || n.Value == nil {
+			return out, false
+		}
+		os, ns := constantString(o), constantString(n)
+		if ns != "" {
+			continue
+		}
+		rs := []rune(os)
+		if len(rs) == 1 {
+			if out.set == nil {
+				out.set = map[rune]bool{}
+			}
+			out.set[rs[0]] = true
+		}
+	}
+	return out, true
+}
+
+func constantString(tv types.TypeAndValue) string {
+	s := tv.Value.ExactString()
+	if len(s) >= 2 && s[0] == '"' {
+		var out string
+		if _, err := fmt.Sscanf(s, "%q", &out); err == nil {
+			return out
+		}
+	}
+	return s
+}
+
+func hexWhitespaceRule(r *core.Result, prog *core.Program, pk *packages.Package) {
+	info := pk.TypesInfo
+	f := core.FindFunc(pk, "ParseAnnotatedHex")
+	if f == nil {
+		return
+	}
+	// replacers declared at package level or locally:  x := strings.NewReplacer(...)
+	replacers := map[types.Object]*ast.CallExpr{}
+	for _, file := range pk.Syntax {
+		ast.Inspect(file, func(n ast.Node) bool {
+			var names []*ast.Ident
+			var values []ast.Expr
+			switch x := n.(type) {
+			case *ast.ValueSpec:
+				names, values = x.Names, x.Values
+			case *ast.AssignStmt:
+				for _, l := range x.Lhs {
+					if id, ok := l.(*ast.Ident); ok {
+						names = append(names, id)
+					}
+				}
+				values = x.Rhs
+			}
+			for i, v := range values {
+				if c, ok := v.(*ast.CallExpr); ok && i < len(names) {
+					if fn := staticCallee(info, c); fn != nil && fn.Pkg() != nil && fn.Pkg().Path() == "strings" && fn.Name() == "NewReplacer" {
+						if o := info.Defs[names[i]]; o != nil {
+							replacers[o] = c
+						}
+					}
+				}
+			}
+			return true
+		})
+	}
+	// the argument of hex.DecodeString and the transformations applied to it
+	var decodeCall *ast.CallExpr
+	ast.Inspect(f.Decl.Body, func(n ast.Node) bool {
+		if c, ok := n.(*ast.CallExpr); ok {
+			if fn := staticCallee(info, c); fn != nil && fn.Pkg() != nil && fn.Pkg().Path() == "encoding/hex" && fn.Name() == "DecodeString" {
+				decodeCall = c
+			}
+		}
+		return true
+	})
+	if decodeCall == nil {
+		r.Fail("H3", "ParseAnnotatedHex whitespace removal", prog.Pos(f.Pos()), "no call of hex.DecodeString found")
+		return
+	}
+	argID, ok := decodeCall.Args[0].(*ast.Ident)
+	if !ok {
+		r.Ob("H3", "ParseAnnotatedHex removes every white-space character before hex decoding", prog.Pos(decodeCall.Pos()), false, "undecided: the decoded text is not a plain variable")
+		return
+	}
+	sObj := info.Uses[argID]
+	var removed runeClass
+	undecided := ""
+	var classify func(e ast.Expr)
+	classify = func(e ast.Expr) {
+		switch x := e.(type) {
+		case *ast.ParenExpr:
+			classify(x.X)
+		case *ast.Ident, *ast.SliceExpr, *ast.BasicLit:
+			// the variable itself, a cut of it, a literal: nothing removed
+		case *ast.CallExpr:
+			fn := staticCallee(info, x)
+			name := ""
+			if fn != nil && fn.Pkg() != nil {
+				name = fn.Pkg().Path() + "." + fn.Name()
+			}
+			switch {
+			case name == "strings.Map" && len(x.Args) == 2:
+				if lit, ok := x.Args[0].(*ast.FuncLit); ok {
+					c, ok := removedByMapFunc(info, lit)
+					if !ok {
+						undecided = "the strings.Map callback is outside the recognised forms"
+					}
+					removed.union(c)
+				} else {
+					undecided = "strings.Map with a non-literal callback"
+				}
+				classify(x.Args[1])
+			case name == "strings.Replace" && fn.Type().(*types.Signature).Recv() != nil && len(x.Args) == 1:
+				// (*strings.Replacer).Replace
+				if se, ok := x.Fun.(*ast.SelectorExpr); ok {
+					if id, ok := se.X.(*ast.Ident); ok {
+						if rc, ok := replacers[info.Uses[id]]; ok {
+							c, ok := replacerRemoved(info, rc)
+							if !ok {
+								undecided = "replacer arguments are not constants"
+							}
+							removed.union(c)
+						} else {
+							undecided = "replacer of unknown origin"
+						}
+					}
+				}
+				classify(x.Args[0])
+			case name == "strings.ReplaceAll" && len(x.Args) == 3:
+				o, n := info.Types[x.Args[1]], info.Types[x.Args[2]]
+				if o.Value != nil && n.Value != nil && constantString(n) == "" {
+					if rs := []rune(constantString(o)); len(rs) == 1 {
+						removed.union(runeClass{set: map[rune]bool{rs[0]: true}})
+					}
+				}
+				classify(x.Args[0])
+			case name == "strings.Join" && len(x.Args) == 2:
+				if inner, ok := x.Args[0].(*ast.CallExpr); ok {
+					if ifn := staticCallee(info, inner); ifn != nil && ifn.Pkg() != nil && ifn.Pkg().Path() == "strings" && ifn.Name() == "Fields" {
+						if sep := info.Types[x.Args[1]]; sep.Value != nil && constantString(sep) == "" {
+							removed.union(runeClass{all: true})
+							classify(inner.Args[0])
+							return
+						}
+					}
+				}
+				undecided = "strings.Join of something other than strings.Fields(..) with an empty separator"
+			case name == "strings.TrimSpace" && len(x.Args) == 1:
+				classify(x.Args[0])
+			default:
+				undecided = "transformation " + types.ExprString(x.Fun) + " is not modelled"
+			}
+		default:
+			undecided = "expression " + types.ExprString(e) + " is not modelled"
+		}
+	}
+	ast.Inspect(f.Decl.Body, func(n ast.Node) bool {
+		as, ok := n.(*ast.AssignStmt)
+		if !ok || as.Pos() > decodeCall.Pos() || len(as.Lhs) != len(as.Rhs) {
+			return true
+		}
+		for i, l := range as.Lhs {
+			if id, ok := l.(*ast.Ident); ok && (info.Uses[id] == sObj || info.Defs[id] == sObj) {
+				classify(as.Rhs[i])
+			}
+		}
+		return true
+	})
+	missing := []string{}
+	if !removed.all {
+		for _, rg := range unicode.White_Space.R16 {
+			for c := rune(rg.Lo); c <= rune(rg.Hi); c += rune(rg.Stride) {
+				if !removed.set[c] {
+					missing = append(missing, fmt.Sprintf("U+%04X", c))
+				}
+			}
+		}
+	}
+	detail := ""
+	if undecided != "" {
+		detail = "undecided: " + undecided
+	} else if len(missing) > 0 {
+		detail = "white-space characters that reach hex.DecodeString (and make it reject valid annotated hex): " + strings.Join(firstN(missing, 12), " ")
+	}
+	r.Ob("H3", "ParseAnnotatedHex removes every white-space character before hex decoding", prog.Pos(decodeCall.Pos()), undecided == "" && len(missing) == 0, detail)
 }
